@@ -331,6 +331,71 @@ def run_viafile(ctx, vi, via, slot):
         env.close()
 
 
+RAW_YAML = ['', '~', 'null', 'Null', 'NULL', '!!null ""', 'true', 'True',
+            'TRUE', 'yes', 'Yes', 'on', 'false', 'no', 'off', '0', '1',
+            '-1', '0.0', '1e3', '.inf', '.nan', '0x1F', '0o17', '1_000',
+            '2020-01-02', '2001-12-14t21:59:43.10-05:00', '{}', '{a: b}',
+            '{"role:r1": x}', '[1]', '[~]', '[[~]]', '[[role:r1, ~]]',
+            '!!binary cm9sZTpyMQ==', '!!set {"role:r1"}', '!!float 1',
+            '!!python/none ""']
+
+
+def run_rawyaml(ctx, ri, slot):
+    """YAML *spellings* of non-rule values (an empty value, ~, yes/no,
+    numbers, dates, flow collections, tagged scalars) in a real policy file:
+    whatever the loader makes of them, they are not rules."""
+    from oslo_policy import policy
+    common.set_ctx(ctx)
+    raw = RAW_YAML[ri]
+    where = str(ctx.choice('where', ['main', 'dir']))
+    key, asked = {'plain': ('p', 'p'), 'new': ('new', 'new'),
+                  'old': ('old', 'new')}[slot]
+
+    def defaults():
+        dep = policy.DeprecatedRule('old', 'role:r2', deprecated_reason='r',
+                                    deprecated_since='s')
+        return [policy.RuleDefault('p', 'role:r1'),
+                policy.RuleDefault('new', 'role:r1', deprecated_rule=dep)]
+    base = '"other": "role:r2"\n'
+    text = '"%s": %s\n%s' % (key, raw, base)
+    env = common.PolicyEnv()
+    try:
+        if where == 'main':
+            env.write('policy.yaml', None, raw=text)
+        else:
+            env.write('policy.yaml', None, raw=base)
+            env.write('policy.d/10.yaml', None, raw=text)
+        enf = env.enforcer(defaults=defaults(),
+                           policy_file=env.path('policy.yaml'))
+        env.write('absent.yaml', None, raw=base)
+        ref = env.enforcer(defaults=defaults(), policy_dirs=(),
+                           policy_file=env.path('absent.yaml'))
+        creds = {'roles': ctx.roles('role', ROLES)}
+        got = common.decision(ctx, enf, asked, creds)
+        absent = common.decision(ctx, ref, asked, creds)
+        ctx.observe('decision', got)
+        ctx.cover('rawyaml:' + slot)
+        det = {'yaml': raw, 'slot': slot, 'where': where}
+        # a file the YAML loader itself refuses may raise a load error
+        load_errors = {'ValueError', 'InvalidDefinitionError', 'TypeError',
+                       'ConstructorError'}
+        ctx.require(set(got.exc_names()) <= load_errors,
+                    'rawyaml:undocumented-exception',
+                    detail=dict(det, exc=got.exc_names()))
+        ctx.require(mkbool(z3.Implies(got.truth(), absent.truth())),
+                    'rawyaml:non-rule-value-allows',
+                    key='rawyaml:non-rule-value-allows:%s' % raw,
+                    detail=lambda m: dict(det, got=got.describe(m),
+                                          absent=absent.describe(m)))
+    finally:
+        env.close()
+
+
+def cubes_rawyaml(tier, seed):
+    return [{'ri': i, 'slot': s} for i in range(len(RAW_YAML))
+            for s in ('plain', 'new', 'old')]
+
+
 def cubes_viafile(tier, seed):
     n = len(VALUES) + len(VALID_TRUE)
     return [{'vi': i, 'via': via, 'slot': slot} for i in range(n)
@@ -406,13 +471,15 @@ HARNESSES = {
              'concretize_limit': 5000000},
     'values': {'fn': run_values, 'cubes': cubes_values},
     'viafile': {'fn': run_viafile, 'cubes': cubes_viafile},
+    'rawyaml': {'fn': run_rawyaml, 'cubes': cubes_rawyaml},
     'lists': {'fn': run_lists, 'cubes': cubes_lists},
 }
 
 REQUIRED_COVER = ['tokens:rejected', 'text:rejected', 'text:sentence',
                   'values:denied',
                   'values:always-allow', 'lists:evaluated',
-                  'viafile:plain', 'viafile:new', 'viafile:old']
+                  'viafile:plain', 'viafile:new', 'viafile:old',
+                  'rawyaml:plain', 'rawyaml:old']
 
 
 def cube_weight(hname, params):
@@ -435,6 +502,10 @@ def evidence(tier):
                       '{from_dict, JSON text, YAML text} x all subsets of '
                       '%s' % (len(VALUES), ROLES),
             'lists': 'list rules with entries from %r' % (ODD,),
+            'rawyaml': '%d YAML spellings of non-rule values (empty value, '
+                       '~, yes/no/on/off, numbers, dates, flow collections, '
+                       'tagged scalars) in a real policy file, same three '
+                       'slots' % len(RAW_YAML),
             'viafile': 'the same values in a real JSON / YAML policy file '
                        '(main file or policy.d) of an enforcer with '
                        'registered defaults, under a plain registered name, '
